@@ -211,8 +211,8 @@ def impl_macof(a):
 def eui_cases(ctx, full_ports=False):
     rng = ctx.rng
     quick = ctx.quick
-    macs = mac_patterns(rng, 150 if quick else 6000)
-    prefixes = prefix_cases(rng, 40 if quick else 1200)
+    macs = mac_patterns(rng, 600 if quick else 20000)
+    prefixes = prefix_cases(rng, 120 if quick else 3000)
     cases = []
     for i, mv in enumerate(macs):
         picks = [prefixes[(7 * i + k) % len(prefixes)] for k in range(3)] + [rng.choice(prefixes)]
@@ -260,7 +260,7 @@ def corr_eui(ctx, out):
     rng = ctx.rng
     extra = [0, 1, (1 << 128) - 1, (1 << 64) - 1, 1 << 57, 1 << 41, 0xffffff0000000000, 0xffffff, 0xfffe000000,
              (1 << 32) - 1, 1 << 32, 0x020000000000] + [1 << i for i in range(128)]
-    extra += [rng.getrandbits(128) for _ in range(300 if ctx.quick else 20000)]
+    extra += [rng.getrandbits(128) for _ in range(1000 if ctx.quick else 40000)]
     for v in extra:
         ver = 4 if v < (1 << 32) and rng.random() < 0.5 else 6
         a = netaddr.IPAddress(v, ver)
@@ -384,7 +384,7 @@ def hostport_cases(ctx):
     """yields (address, default, tag)"""
     rng = ctx.rng
     n = _n()
-    nrand = 1500 if ctx.quick else 30000
+    nrand = 5000 if ctx.quick else 80000
     for _ in range(nrand):
         fam, h = gen_host(rng)
         p = rng.choice(PORT_EDGE) if rng.random() < 0.3 else rng.randrange(65536)
@@ -411,11 +411,11 @@ def hostport_cases(ctx):
               '[fe80::1%]]:80', '[fe80::1%a]b]:80']:
         for d in DEFAULTS[:6]:
             yield a, d, 'odd/shape'
-    for _ in range(600 if ctx.quick else 20000):
+    for _ in range(2000 if ctx.quick else 50000):
         fam, h = gen_host(rng)
         base = n.escape_ipv6(h) + rng.choice(['', ':' + str(rng.randrange(70000))])
         yield mutate(rng, base, ALPHA_BAD), rng.choice(DEFAULTS), 'mutated'
-    for _ in range(300 if ctx.quick else 10000):
+    for _ in range(1000 if ctx.quick else 20000):
         yield ''.join(rng.choice(ALPHA_BAD) for _ in range(rng.randrange(0, 10))), rng.choice(DEFAULTS), 'random'
 
 
@@ -432,12 +432,12 @@ def esc_cases(ctx):
                           '0:0:0:0:0:0:0:0', 'FFFF:ffff::', '::255.255.255.255', '::256.0.0.0', '::1.2.3.04', '1::1.2.3.4',
                           '1:2:3:4:5::1.2.3.4', '1:2:3:4:5:6::1.2.3.4', '1:2:3:4:5:6:7::1.2.3.4', '::1.2.3.4::']:
         yield h, 'fixed'
-    for _ in range(1200 if ctx.quick else 30000):
+    for _ in range(4000 if ctx.quick else 60000):
         fam, h = gen_host(rng)
         yield h, fam
         if rng.random() < 0.7:
             yield mutate(rng, h, alpha), 'mutated/' + fam
-    for _ in range(300 if ctx.quick else 10000):
+    for _ in range(1000 if ctx.quick else 20000):
         yield ''.join(rng.choice(alpha) for _ in range(rng.randrange(0, 12))), 'random'
 
 
@@ -501,7 +501,7 @@ def build_url(s, nl, p, q, f):
 
 def url_cases(ctx):
     rng = ctx.rng
-    n = 700 if ctx.quick else 15000
+    n = 2500 if ctx.quick else 40000
     if not ctx.quick:
         for s, nl, f in itertools.product(SCHEMES, NETLOCS, FRAGS):
             yield build_url(s, nl, rng.choice(PATHS), rng.choice(QUERIES), f), rng.choice(['', '', 'ftp']), \
@@ -517,7 +517,7 @@ def url_cases(ctx):
             u = rng.choice([' ', '\t', '\x00', '\n']) + u + rng.choice([' ', '\n', ''])
             tag = 'padded'
         yield u, rng.choice(['', '', '', 'ftp', 'HTTP']), rng.random() < 0.5, tag
-    for _ in range(300 if ctx.quick else 5000):
+    for _ in range(800 if ctx.quick else 10000):
         yield ''.join(rng.choice(':/?#[]@&=;%ab1 \t') for _ in range(rng.randrange(0, 14))), '', rng.random() < 0.5, 'random'
 
 
@@ -796,6 +796,14 @@ def run_oracle(case):
         return oracle_hostport(case['host'], case['port'], case['default'])
     if k in ('url', 'params'):
         return oracle_url(case['url'], case['scheme'], case['allow_fragments'])
+    if k == 'hostport-raw':
+        try:
+            got = _n().parse_host_port(case['host'], default_port=case['default'])
+        except Exception as ex:
+            return 'raised %s' % exc_name(ex)
+        if got != (case['host'], case['default']):
+            return 'parse_host_port(%r, default_port=%r) = %r' % (case['host'], case['default'], got)
+        return None
     return None
 
 
@@ -819,7 +827,7 @@ def search(ctx, seeds, full=False):
             check(dict(s))
         elif s.get('kind') in ('php', 'esc'):
             ctx.count('search/seed-not-in-property-form')
-    scale = (4 if full else 1) * (1 if ctx.quick else 12)
+    scale = (4 if full else 1) * (3 if ctx.quick else 30)
     # --- EUI-64 ---
     macs = mac_patterns(rng, 100 * scale)
     prefixes = prefix_cases(rng, 25 * scale)
@@ -847,6 +855,10 @@ def search(ctx, seeds, full=False):
             if ']' in sc:
                 continue        # outside the stated host class (see LEVEL_NOTE)
         ctx.count('search/hostport/' + fam)
+        if fam == 'v6' and rng.random() < 0.15:
+            # the docstring's bare IPv6 text: taken whole, default port
+            check({'kind': 'hostport-raw', 'host': h, 'default': rng.choice([None, 0, 1234, 65535])})
+            continue
         if rng.random() < 0.7:
             p = rng.choice(PORT_EDGE) if rng.random() < 0.3 else rng.randrange(65536)
             check({'kind': 'hostport', 'host': h, 'port': p, 'default': rng.choice([None, 1, 65535])})
@@ -859,7 +871,7 @@ def search(ctx, seeds, full=False):
             ctx.count('search/hostport/allports')
             check({'kind': 'hostport', 'host': pool[p % len(pool)], 'port': p, 'default': None})
     # --- URLs ---
-    for (u, sch, af, tag) in url_cases(ctx) if (full or not ctx.quick) else itertools.islice(url_cases(ctx), 600):
+    for (u, sch, af, tag) in url_cases(ctx) if (full or not ctx.quick) else itertools.islice(url_cases(ctx), 2000):
         ctx.count('search/url/' + tag)
         check({'kind': 'url', 'url': u, 'scheme': sch, 'allow_fragments': af})
     return fails
@@ -919,6 +931,8 @@ def model_line(case):
         return req('php', 'N' if a is None else hexs(a), dflt_field(case['default']))
     if k == 'esc':
         return req('esc', hexs(case['host']))
+    if k == 'hostport-raw':
+        return req('php', hexs(case['host']), dflt_field(case['default']))
     if k == 'hostport':
         n = _n()
         e = n.escape_ipv6(case['host'])
@@ -949,6 +963,9 @@ def replay(ctx, payload):
         print('implementation:', impl_php(case['address'], case['default']))
     elif k == 'esc':
         print('implementation:', impl_esc(case['host']))
+    elif k == 'hostport-raw':
+        print('implementation: parse_host_port(%r, default_port=%r) -> %s' % (
+            case['host'], case['default'], impl_php(case['host'], case['default'])))
     elif k == 'hostport':
         e = n.escape_ipv6(case['host'])
         a = e if case['port'] is None else e + ':' + str(case['port'])
